@@ -49,6 +49,14 @@ SOLVER_NOTE = TB + ('the objective is an oracle (arbitrary stream of finite valu
                     '(reals, non-NaN binary64); depq.DEPQ modelled as a stable descending list; pow() results taken from the implementation\'s own calls; '
                     'the evolvent, scipy and listeners are outside this model.')
 CHECKS.update({
+    'C14': dict(
+        text='Theorems over the reals for ANY parameter set: inside its attraction ball the cubic never goes below the prescribed local minimum (via Cauchy-Schwarz and a sign analysis of the cubic), the cubic meets the paraboloid on the ball boundary (continuity), '
+             'outside the balls the function is the paraboloid, at each minimiser it takes the prescribed value; and a decidable rational predicate wf_q (squares instead of square roots: minimisers in the box, balls pairwise disjoint, vertex outside each ball, '
+             'non-negative peaks, global value -1 at the class distance with the class radius, every other minimum strictly higher) whose acceptance implies all of the above for the real function (wf_certifies). '
+             'Per run: kernel evaluation of wf_q on the parameters exported from the implementation as exact binary64 rationals (quick: seeded sample of 24; thorough: all 400); a binary64 model of CalculateDFunction compared bit-for-bit with GKLS.Calculate at points in every region; '
+             'a direct exact-arithmetic structural oracle and a committed golden record over all 400 functions; Knuth self-test value of the random generator.',
+        design='5 C14', note=TB + 'real-number axioms of the standard library; the random generator and the parameter construction are not modelled (golden record + Knuth check value instead).',
+        technique='Rocq proof of the structure theorem + kernel-checked rational certificate per instance + bit-exact float correspondence + golden record'),
     'C15': dict(
         text='Theorems on a store model: an evaluation whose only write is the supplied holder delivers a value that does not depend on any earlier evaluation, returns the holder, leaves the point and every other cell untouched. '
              'The hypothesis is a source fact re-read on every run (reflexivity): along the whole evaluation path of every shipped problem (Calculate and what it calls, incl. GKLSFunction / GrishaginFunction) nothing is assigned '
